@@ -80,7 +80,8 @@ Definition res_opt_eqb {A} (eq : A -> A -> bool) (r : res A) (o : option A) : bo
 
 Record c06b_case := {
   b_apko : bool;                         (* true: written by walkFS+writeTar; false: by the harness's own loop over archive/tar's Writer *)
-  b_members : list member;               (* what is handed to the writer *)
+  b_members : list member;               (* what is handed to the writer (raw cases) *)
+  b_fs : option (c06_case * list (N * list seg)); (* fs cases: the tree read back and the contents by content id; the members are derived from them *)
   b_written : option (option (list seg));(* None: the writer is not part of the case; Some None: the real writer failed *)
   b_stream : option (list seg);          (* the stream read back; None: the written one *)
   b_read : option (list member)          (* archive/tar Reader: members until io.EOF; None: an error *)
@@ -89,7 +90,32 @@ Record c06b_case := {
 Definition fs_members (c : c06_case) (contents : list (N * list seg)) : list member :=
   map (member_of_entry (map (fun p => (fst p, segs (snd p))) contents)) (walk (case_env c) (c_tree c)).
 
-Definition check_c06b (c : c06b_case) : list string :=
+Definition members_of (c : c06b_case) : list member :=
+  match b_fs c with Some (base, cts) => fs_members base cts | None => b_members c end.
+
+(* the content id of a body, through the table of the case (empty body: 0) *)
+Definition cid_lookup (cs : list (N * bytes)) (b : bytes) : N :=
+  match find (fun p => beqb (snd p) b) cs with Some p => fst p | None => 0%N end.
+
+(* c06_layer_bytes_faithful_tree applied to what the REAL code did: for a tree
+   inside the envelope stated on the tree, the members archive/tar's Reader found
+   in the real stream must stand for exactly the entries the theorem names *)
+Definition check_tree_level (c : c06b_case) : list string :=
+  match b_fs c, b_read c with
+  | Some (base, cts), Some ms =>
+      let ev := case_env base in
+      let cs := map (fun p => (fst p, segs (snd p))) cts in
+      let t := c_tree base in
+      if (wfl_forest (has_hdr ev) t && whole_seconds_forest t && forest_bytes_okb ev cs (cid_lookup cs) t)%bool
+      then tag_if (negb (list_eqb (option_eqb entry_eqb) (map (entry_of_member (cid_lookup cs)) ms) (map (fun e => Some (tar_written e)) (walk ev t))))
+                  "viol:layer-bytes-faithful"
+      else []
+  | _, _ => []
+  end.
+
+Definition check_c06b (c0 : c06b_case) : list string :=
+  let c := {| b_apko := b_apko c0; b_members := members_of c0; b_fs := None; b_written := b_written c0; b_stream := b_stream c0; b_read := b_read c0 |} in
+  check_tree_level c0 ++
   (* apko's writeTar: with the Format and the Close read from tarball.go; the
      harness's own loop: Format unset, Close called *)
   let w := if b_apko c then write_archive (b_members c) else write_archive_gen 0 true (b_members c) in
